@@ -83,6 +83,17 @@ def check(rep, tier, seed):
                 jobs.append((["stat", "-s", st], txt2, "seam"))
             jobs.append((["view", "--project-shape", "7,2"], txt2, "seam"))
             jobs.append((["view", "-m", "1", "--project-shape", "172"], txt2, "seam"))
+    # many-axis spectra written as npy: header lengths on and around the 64-byte alignment boundary (the dict is 56 bytes
+    # plus the text of the shape tuple; 10 + len(dict) = 0 mod 64 is where the padding arithmetic has its edge)
+    for d in range(14, 24):
+        for big in range(0, 7):
+            shb = [1] * (d - big) + [11] * big
+            if elements(shb) > 20000:
+                continue
+            txtb = text_spectrum(shb, [str(rng.randrange(0, 9)) for _ in range(elements(shb))])
+            jobs.append((["view", "-O", "npy"], txtb, "npy-header-boundary"))
+            if big in (0, 4):
+                jobs.append((["fold", "-O", "npy"], txtb, "npy-header-boundary"))
     base = text_spectrum([3, 3], [str(i) for i in range(9)])
     for p in ("0", "17", "65535", "65536", "4294967296", "18446744073709551615"):
         jobs.append((["view", "--precision", p], base, "precision"))
